@@ -72,6 +72,7 @@ def _lemmas(res):
 
 def run(ctx):
     res = PropResult('C05')
+    K.engine_selftest(res)
     K.k1_block(res, ctx, 'contracts.c05', K1, 'C05.')
     K.k1_block(res, ctx, 'contracts.c05:registry_get', K1_GET, 'C05.')
     _lemmas(res)
